@@ -537,6 +537,26 @@ Section SeqProofs.
   Qed.
 End SeqProofs.
 
+(* ====================================================================== several sinks *)
+Section ProductProofs.
+  Variables (S1 S2 O1 O2 : Type) (step1 : S1 -> O1 -> S1) (step2 : S2 -> O2 -> S2).
+
+  (* whatever the interleaving: each component is its own model run on its own operations, in their order *)
+  Lemma pair_run_split ops : forall s,
+    pair_run S1 S2 O1 O2 step1 step2 s ops =
+    (fold_left step1 (lefts O1 O2 ops) (fst s), fold_left step2 (rights O1 O2 ops) (snd s)).
+  Proof.
+    induction ops as [|o ops IH]; intros [s1 s2]; [reflexivity|].
+    unfold pair_run in *. cbn [fold_left]. rewrite IH. destruct o; reflexivity.
+  Qed.
+End ProductProofs.
+
+(* two LogFiles written alternately: the files of each are those of a LogFile that saw only its own operations *)
+Lemma two_logfiles_independent (A : Type) (c1 c2 : cfg) (now1 now2 : Z) (ops : list (sop_t A + sop_t A)) :
+  let s := pair_run _ _ _ _ (lf_step c1) (lf_step c2) (lf_new now1, lf_new now2) ops in
+  fst s = lf_run c1 (lf_new now1) (lefts _ _ ops) /\ snd s = lf_run c2 (lf_new now2) (rights _ _ ops).
+Proof. cbv zeta. rewrite pair_run_split. split; reflexivity. Qed.
+
 (* ====================================================================== file names *)
 Section NamesProofs.
   Variables (X : Type) (ltX : X -> X -> Prop).
